@@ -145,7 +145,10 @@ func (x *Exec) discharge(solver string, timeout time.Duration, knownListed map[s
 				lastConfirmed = true
 				return r, m, total, err
 			}
-			if attempt >= retries {
+			// a model may be discarded as an artefact only where an artefact has a source: an
+			// uninterpreted stub was applied and the run is single-threaded (natively a schedule
+			// counterexample can fail to reproduce by chance - that is never evidence)
+			if attempt >= retries || ((len(x.uf) == 0 || x.NGo > 0) && (curOb == nil || curOb.Kind != "cover")) {
 				return r, m, total, err
 			}
 			lastSpurious++
